@@ -38,7 +38,7 @@ def known_f08(ctx, results):
 
 def run(ctx):
     q1, q2, q3 = {'quick': (64, 48, 32), 'thorough': (600, 400, 200)}[ctx.tier]
-    plan = [('ops', q1, 8), ('unput', q2, 6), ('arraymore', q3, 6)]
+    plan = [('ops', q1, 8), ('unput', q2, 6), ('arraymore', q3, 6), ('eof', q3, 6)]
     return rtprop.run(ctx, THEOREMS, plan, 'proof',
                       'yymore/yyless/yyunput/yyinput scripts per action execution, %array and %pointer, reentrant and not, small buffers' + '. Kernel-checked theorems about the abstract scanner (listed under obligations) + differential '
                       'correspondence of the real generated scanner (ASan/UBSan build) with that model on generated cases.',
